@@ -265,8 +265,9 @@ func extractTermsAux(ctx *Context, x interface{}, terms StringSet, depth int) {
 
 func (s *IndexedState) Add(ctx *Context, id string, x Map) (string, error) {
 	Log(DEBUG, ctx, "IndexedState.Add", "state", s.Name, "factx", x, "id", id)
-	delete(s.cachedRules, id)
 	s.slock(ctx, false)
+	// (The rule cache is guarded by the state's lock.)
+	delete(s.cachedRules, id)
 	id, err := s.add(ctx, id, x)
 	var js []byte
 	if nil == err {
@@ -725,7 +726,11 @@ func (s *IndexedState) FindRules(ctx *Context, event Map) (map[string]Map, error
 func (s *IndexedState) doFindRules(ctx *Context, event Map) (map[string]Map, error) {
 	s.slock(ctx, true)
 	defer s.sunlock(ctx, true)
+	return s.findRules(ctx, event)
+}
 
+// findRules does the work for doFindRules.  Assumes the caller has the lock.
+func (s *IndexedState) findRules(ctx *Context, event Map) (map[string]Map, error) {
 	acc := make(map[string]Map)
 	ss, err := s.RuleIndex.SearchPatternsMap(ctx, map[string]interface{}(event))
 	if err != nil {
@@ -779,7 +784,15 @@ func (s *IndexedState) FindCachedRules(ctx *Context, event Map) (map[string]*Rul
 	timer := NewTimer(ctx, "IndexedState.FindCachedRules")
 	defer timer.Stop()
 
-	rules, err := s.doFindRules(ctx, event)
+	// The rule cache is guarded by the state's (write) lock: looking
+	// up the rules and filling the cache has to be atomic with respect
+	// to Add and Rem, which drop cache entries.  Otherwise a rule
+	// compiled from a body that has just been replaced could be put
+	// (back) into the cache.
+	s.slock(ctx, false)
+	defer s.sunlock(ctx, false)
+
+	rules, err := s.findRules(ctx, event)
 	if err != nil {
 		return nil, err
 	}
@@ -793,6 +806,7 @@ func (s *IndexedState) FindCachedRules(ctx *Context, event Map) (map[string]*Rul
 			if err != nil {
 				return nil, err
 			}
+			rule.Id = id
 			acc[id] = rule
 			s.cachedRules[id] = rule
 		}
